@@ -147,6 +147,7 @@ func runClientScenario(t *testing.T, rec *recorder, cfg *sysCfg, seed uint64, sc
 	count := 0
 	cli.eng.eventLoops.iterate(func(_ int, el *eventloop) bool { count += int(el.countConn()); return true })
 	rec.emit("Quiesce", "count", count, "opened", int(atomic.LoadInt32(&h.opened)), "closed", int(atomic.LoadInt32(&h.closedN)))
+	h.awaitSlowTick()
 	rec.emit("StopReq", "src", "Client.Stop", "g", vsup.Goid())
 	stopped := make(chan error, 1)
 	go func() { stopped <- cli.Stop() }()
